@@ -117,8 +117,8 @@ def canary_c18(real):
 SPECS = {
     "C02": dict(
         title="each CHANNEL_DATA frame is decoded once and goes to exactly the callback or queue registered for its id, behind everything delivered earlier; other channels are untouched (frame); send emits exactly one frame or nothing",
-        targets=[C + "send", C + "receive", C + "__init__", F + "new", F + "_local_receive", MRC, GBR], scenarios=["c02_order"],
-        heavy={F + "_local_receive": 6, GBR: 8, MRC: 4},
+        targets=[C + "send", C + "receive", C + "__init__", C + "setcallback", F + "new", F + "_local_receive", MRC, GBR], scenarios=["c02_order", "c10_callback"],
+        heavy={F + "_local_receive": 6, GBR: 8, MRC: 4, C + "setcallback": 4},
         extra=["items sent before the peer holds the channel object are dropped by _local_receive (`pass  # drop data`): the contract states it (unknown id: nothing changes)"],
         canary=(F + "_local_receive", "item-queued-at-the-head", canary_c02)),
     "C03": dict(
@@ -129,7 +129,10 @@ SPECS = {
         canary=(C + "receive", "endmarker-consumed-not-requeued", canary_c03)),
     "C04": dict(
         title="a stream ending inside or between frames raises EOFError out of from_io (C08); every exit of the receiver loop reaches the epilogue, which sweeps every registered channel (ENDMARKER, receiveclosed) and callback, sets finished and closes the IO; new() then raises OSError",
-        targets=[GBR, F + "_finished_receiving", F + "new", F + "_local_close", F + "_no_longer_opened", C + "send", C + "receive", C + "waitclose"], scenarios=["c04_kill"],
+        targets=[GBR, F + "_finished_receiving", F + "new", F + "_local_close", F + "_no_longer_opened", C + "send", C + "receive", C + "waitclose",
+                 # the crash-point quantifier lives in the read loops and from_io: exactly n bytes or EOFError, for every cut offset (contracts of C08)
+                 f"io::{GB}:Popen2IO.read", f"io::execnet.gateway_socket:SocketIO.read", f"io::{GB}:Message.from_io"], scenarios=["c04_kill"],
+        extra_worlds="io", cut_battery=True,
         heavy={GBR: 8, F + "_finished_receiving": 4, F + "_local_close": 3},
         extra=["kernel behaviour on process death (EOF delivery, EPIPE) is the OS contract; real SIGKILLs only in the native scenario",
                "Gateway.hasreceiver / remote_exec / newchannel after loss go through ChannelFactory.new (OSError when finished) and C09 (receiver reply removed)"],
@@ -168,12 +171,35 @@ def make(pid):
         scenarios = sp["scenarios"]
         assumptions = COMMON_ASSUMPTIONS
         not_decided = NOT_DECIDED_COMMON + sp["extra"]
+        if sp.get("extra_worlds") == "io":
+            from contracts import io as _cio
+
+            extra_worlds = {"io": _cio.declare}
+
+        def lemmas(self, w):
+            if sp.get("extra_worlds") == "io":
+                from contracts import io as _cio
+
+                return [l for l in _cio.lemmas(w) if "prefix" in l[0]]
+            return []
+
+        def bounded(self, tier):
+            out = ChanProp.bounded(self, tier)
+            if sp.get("cut_battery"):
+                from .C08 import BATTERY
+
+                res = run_oracle("c08_frames.py", {"cases": [dict(c, transport=t) for c in BATTERY for t in ("popen", "socket")]})
+                out.append({"name": "native-cut-stream-battery", "bound": "frames cut at 0/5/9/11 bytes and complete frames under several chunkings, pipe and socket read loops",
+                            "evaluations": res.get("n", 0), "failures": 1 if res.get("failed") else 0, "detail": res.get("results") if res.get("failed") else None})
+            return out
 
         def canaries(self, w):
             tgt, name, mk = sp["canary"]
             real = w.contracts[tgt]
             c = mk(real)
-            c.ghost_init = real.ghost_init
+            for attr in ("ghost_init", "held_on_entry", "stable_at_acquire", "linearize_at_lock", "probes"):
+                if getattr(real, attr, None) is not None:
+                    setattr(c, attr, getattr(real, attr))
             return [(name, c)]
 
     P.__name__ = "PROP"
